@@ -50,6 +50,12 @@ struct St {
     /// freshly re-parsed from bytes (true) or the in-memory result of an operation (false)
     reparsed: bool,
     start: usize,
+    /// false if the last signature carries no issuer key id subpacket of the primary key (fingerprint only, no issuer,
+    /// made by a subkey): which id signature_key_ids() then reports is not judged
+    id_reported: bool,
+    /// false if the last signature was made by a subkey and does not name it by key id: whether the
+    /// library finds the right subkey then is not judged (no other key may verify all the same)
+    must_verify: bool,
 }
 
 struct Start {
@@ -79,7 +85,7 @@ pub fn run(ctx: &Ctx) -> i32 {
         let b = bytes_of(&pkg);
         let l = scan(&b).unwrap_or_else(|| crate::ctx::machinery("start package does not scan")).3;
         starts.push(Start { name: name.clone(), header: b[l.hdr_off..l.payload_off].to_vec(), payload: b[l.payload_off..].to_vec() });
-        inits.push((format!("start({})", name), St { pkg, last, reparsed: false, start: starts.len() - 1 }));
+        inits.push((format!("start({})", name), St { pkg, last, reparsed: false, start: starts.len() - 1, id_reported: true, must_verify: true }));
     };
     let mut specs = vec![("built-empty", BuildSpec::minimal()), ("built-one-file", crate::corpus::one_file())];
     let mut gz = crate::corpus::rich();
@@ -153,6 +159,20 @@ pub fn run(ctx: &Ctx) -> i32 {
         }
     }
 
+    let mut foreign_signers: Vec<(Key, crate::fsigner::ForeignSigner)> = vec![];
+    let fkeys: Vec<Key> = if ctx.thorough() { keys.clone() } else { vec![Key::Ed25519, Key::Rsa2048] };
+    for k in &fkeys {
+        for l in crate::fsigner::LAYOUTS {
+            for subkey in [false, true] {
+                if l == crate::fsigner::Layout::LikeLibrary && !subkey {
+                    continue; // what sign(k, t) already does
+                }
+                if let Some(f) = crate::fsigner::ForeignSigner::new(&ctx.repo, *k, l, crate::fsigner::What::TheData, subkey) {
+                    foreign_signers.push((*k, f));
+                }
+            }
+        }
+    }
     let max_depth = 6;
     let keys_ref = &keys;
     let protected_attempts = ctx.thorough();
@@ -162,7 +182,7 @@ pub fn run(ctx: &Ctx) -> i32 {
         |s: &St| {
             let mut h = Sha256::new();
             h.update(bytes_of(&s.pkg));
-            h.update([s.reparsed as u8, s.start as u8]);
+            h.update([s.reparsed as u8, s.start as u8, s.id_reported as u8, s.must_verify as u8]);
             h.update(format!("{:?}", s.last));
             h.finalize().to_vec()
         },
@@ -175,13 +195,23 @@ pub fn run(ctx: &Ctx) -> i32 {
                     let mut p = s.pkg.clone();
                     let label = format!("sign({}, {})", k.name(), t);
                     match catch(|| p.sign_with_timestamp(env.signer(*k), t)) {
-                        Ok(Ok(())) => out.push((label, St { pkg: p, last: Signer::Ours(*k), reparsed: false, start: s.start })),
+                        Ok(Ok(())) => out.push((label, St { pkg: p, last: Signer::Ours(*k), reparsed: false, start: s.start, id_reported: true, must_verify: true })),
                         Ok(Err(e)) => acc.viol(Violation::new("histories", format!("{} fails: {}", label, e), json!({"history": node.path, "op": label})).sig("clause", "operation-fails").sig("op", "sign")),
                         Err(pn) => acc.viol(panic_violation("histories", &pn, json!({"history": node.path, "op": label}))),
                     }
                 }
             }
             // failed signing attempts: Err, and the package is exactly what it was
+            // valid signatures laid out as other OpenPGP tools lay them out, attached through the public Signing trait
+            for fs in foreign_signers.iter() {
+                let mut p = s.pkg.clone();
+                let label = format!("sign({}, foreign layout {:?}{})", fs.0.name(), fs.1.layout, if fs.1.subkey { ", made by the signing subkey" } else { "" });
+                match catch(|| p.sign_with_timestamp(&fs.1, TIMES[0])) {
+                    Ok(Ok(())) => out.push((label, St { pkg: p, last: Signer::Ours(fs.0), reparsed: false, start: s.start, id_reported: fs.1.layout_has_exactly_one_issuer() && !fs.1.subkey, must_verify: !(fs.1.subkey && !fs.1.has_issuer_key_id()) })),
+                    Ok(Err(e)) => acc.viol(Violation::new("histories", format!("{} fails: {}", label, e), json!({"history": node.path, "op": label})).sig("clause", "operation-fails").sig("op", "sign")),
+                    Err(pn) => acc.viol(panic_violation("histories", &pn, json!({"history": node.path, "op": label}))),
+                }
+            }
             let before = bytes_of(&s.pkg);
             let mut attempts: Vec<(String, rpm::Package, Result<Result<(), rpm::Error>, vlib::report::Panic>)> = vec![];
             for f in [Failing::ReturnsErr, Failing::ReturnsGarbage] {
@@ -215,7 +245,7 @@ pub fn run(ctx: &Ctx) -> i32 {
                                     .rank(node.depth as u64),
                             );
                             // keep exploring from the changed package: by the reference model nothing was signed or cleared
-                            out.push((label, St { pkg: p, last: s.last, reparsed: false, start: s.start }));
+                            out.push((label, St { pkg: p, last: s.last, reparsed: false, start: s.start, id_reported: s.id_reported, must_verify: s.must_verify }));
                         } else {
                             acc.count("failed signing attempt left the package unchanged");
                         }
@@ -225,7 +255,7 @@ pub fn run(ctx: &Ctx) -> i32 {
             {
                 let mut p = s.pkg.clone();
                 match catch(|| p.clear_signatures()) {
-                    Ok(Ok(())) => out.push(("clear".to_string(), St { pkg: p, last: Signer::None, reparsed: false, start: s.start })),
+                    Ok(Ok(())) => out.push(("clear".to_string(), St { pkg: p, last: Signer::None, reparsed: false, start: s.start, id_reported: true, must_verify: true })),
                     Ok(Err(e)) => acc.viol(Violation::new("histories", format!("clear_signatures fails: {}", e), json!({"history": node.path, "op": "clear"})).sig("clause", "operation-fails").sig("op", "clear")),
                     Err(pn) => acc.viol(panic_violation("histories", &pn, json!({"history": node.path, "op": "clear"}))),
                 }
@@ -244,7 +274,7 @@ pub fn run(ctx: &Ctx) -> i32 {
                 let b = bytes_of(&s.pkg);
                 let r = catch(|| rpm::Package::parse(&mut std::io::BufReader::with_capacity(3, Slow(&b))));
                 match r {
-                    Ok(Ok(p)) => out.push(("write+parse(3-byte reads)".to_string(), St { pkg: p, last: s.last, reparsed: true, start: s.start })),
+                    Ok(Ok(p)) => out.push(("write+parse(3-byte reads)".to_string(), St { pkg: p, last: s.last, reparsed: true, start: s.start, id_reported: s.id_reported, must_verify: s.must_verify })),
                     Ok(Err(e)) => acc.viol(Violation::new("histories", format!("the written package does not parse from a reader that returns 3 bytes at a time: {}", e), json!({"history": node.path, "op": "write+parse(3-byte reads)"})).sig("clause", "operation-fails").sig("op", "write+parse(3-byte reads)")),
                     Err(pn) => acc.viol(panic_violation("histories", &pn, json!({"history": node.path, "op": "write+parse(3-byte reads)"}))),
                 }
@@ -252,7 +282,7 @@ pub fn run(ctx: &Ctx) -> i32 {
             {
                 let b = bytes_of(&s.pkg);
                 match parse_pkg(&b) {
-                    Ok(Ok(p)) => out.push(("write+parse".to_string(), St { pkg: p, last: s.last, reparsed: true, start: s.start })),
+                    Ok(Ok(p)) => out.push(("write+parse".to_string(), St { pkg: p, last: s.last, reparsed: true, start: s.start, id_reported: s.id_reported, must_verify: s.must_verify })),
                     _ => acc.viol(Violation::new("histories", "written package does not parse", json!({"history": node.path, "op": "write+parse"})).sig("clause", "operation-fails").sig("op", "write+parse")),
                 }
             }
@@ -272,7 +302,7 @@ pub fn run(ctx: &Ctx) -> i32 {
                     Err(pn) => acc.viol(panic_violation("histories", &pn, case()).rank(rank)),
                     Ok(r) => {
                         row.push(r.is_ok());
-                        if r.is_ok() != want {
+                        if r.is_ok() != want && (s.must_verify || r.is_ok()) {
                             acc.viol(
                                 Violation::new("histories", format!("last signer is {:?} but verification with the {} key {}", s.last, k.name(), if r.is_ok() { "succeeds".to_string() } else { format!("fails: {}", r.unwrap_err()) }), case())
                                     .sig("clause", if want { "last-signer-does-not-verify" } else { "other-key-verifies" })
@@ -285,6 +315,7 @@ pub fn run(ctx: &Ctx) -> i32 {
             acc.count(&format!("verify matrix {:?}", row));
             match (s.last, catch(|| s.pkg.signature_key_ids())) {
                 (_, Err(pn)) => acc.viol(panic_violation("histories", &pn, case()).rank(rank)),
+                (Signer::Ours(_), Ok(_)) if !s.id_reported => acc.count("signature without an issuer key id of the primary key: reported id not judged"),
                 (Signer::Ours(k), Ok(r)) => {
                     let want = vec![ids.iter().find(|(x, _)| *x == k).unwrap().1.clone()];
                     if r.as_ref().ok() != Some(&want) {
@@ -330,7 +361,7 @@ pub fn run(ctx: &Ctx) -> i32 {
         "histories",
         "B",
         &format!(
-            "state graph of {{sign(k, t) for k ∈ {:?}, t ∈ {:?}; clear; write+parse; signing attempts that fail (signer returns an error / returns bytes that are no OpenPGP packet; thorough: protected key without / with a wrong passphrase)}} from {} start packages (built empty / with files / rich gzip{}; foreign assets as shipped and with each family of signature tags alone; library-signed packages re-encoded to the header-only RSA / DSA tag layout); states = (bytes of the real package, in-memory vs re-parsed, reference last-signer), deduplicated by SHA-256 of the full byte image; invariant in every state: each of the 4 public keys verifies ⇔ it signed last, signature_key_ids() = [that key's id] (error when unsigned), digests verify, main header and payload byte-identical to the start package; a failed signing attempt leaves the bytes unchanged. Search ends at the fixpoint or at depth {}. non-trivial = state in which the invariant was evaluated",
+            "state graph of {{sign(k, t) for k ∈ {:?}, t ∈ {:?}; clear; write+parse; sign(k) with valid signatures in the subpacket layouts of other OpenPGP tools (issuer unhashed / fingerprint only / none / twice / next to a foreign id; by the primary key or its signing subkey); signing attempts that fail (signer returns an error / returns bytes that are no OpenPGP packet; thorough: protected key without / with a wrong passphrase)}} from {} start packages (built empty / with files / rich gzip{}; foreign assets as shipped and with each family of signature tags alone; library-signed packages re-encoded to the header-only RSA / DSA tag layout); states = (bytes of the real package, in-memory vs re-parsed, reference last-signer), deduplicated by SHA-256 of the full byte image; invariant in every state: each of the 4 public keys verifies ⇔ it signed last, signature_key_ids() = [that key's id] (error when unsigned), digests verify, main header and payload byte-identical to the start package; a failed signing attempt leaves the bytes unchanged. Search ends at the fixpoint or at depth {}. non-trivial = state in which the invariant was evaluated",
             keys.iter().map(|k| k.name()).collect::<Vec<_>>(), TIMES, starts.len(), if ctx.thorough() { " / sizes zstd / already signed" } else { "" }, max_depth
         ),
         acc,
